@@ -1,4 +1,8 @@
-import PV.Proofs.GAMV
+import PV.Proofs.GAPow
+import Mathlib.Algebra.Ring.Rat
+import Mathlib.Algebra.Field.Rat
+import Mathlib.Algebra.Polynomial.Basic
+import Mathlib.Data.ZMod.Defs
 /-
   C18 — property theorems: multivectors obey the Clifford-algebra axioms.
 
@@ -6,7 +10,18 @@ import PV.Proofs.GAMV
   blades are `Nat` bitmaps, so every statement below holds for ALL bitmaps, i.e. in every dimension.
   `g : Nat → R` is the diagonal of the metric.  `pc` is the clean binary-recursive popcount
   (`PV/Proofs/GABits.lean`), `prodBits g s = ∏ {g i | bit i of s set}` (`PV/Proofs/GA.lean`),
-  `coeff d k = d.get(k, 0)`, `Pruned d` = distinct keys and no stored zero (`PV/Proofs/GAMV.lean`).
+  `coeff d k = d.get(k, 0)`, `NodupKeys d` = distinct keys (every Python dict), `Pruned d` = distinct
+  keys and no stored zero (`PV/Proofs/GAMV.lean`).
+
+  COEFFICIENTS.  The multivector model is generic in the coefficient type; every multivector-level
+  theorem below is stated for an arbitrary commutative ring `R` (Mathlib `CommRing R`) — integers,
+  exact rationals (`Rat`, Python `Fraction`), polynomial rings (symbolic coefficients modulo ring
+  equality), `ZMod n`, … .  `[DecidableEq R]` is the zero test `is_zero(x)` = `x == 0` deciding
+  equality with zero.  The section "which zero test is needed" states the same facts for an
+  ARBITRARY zero test `z : R → Bool`: everything about WHAT a result denotes (coefficient formula,
+  bilinearity, associativity, reverse) needs only `ZSound z` (`z x → x = 0`); that the result is
+  stored WITHOUT zeros — and with it everything phrased with `==`, `bool`, `hash` — needs
+  `ZComplete z` (`x = 0 → z x`) in addition.
 -/
 namespace PV.C18
 open PV.GA
@@ -85,8 +100,8 @@ example : blade_cocycle (fun i => if i = 0 then (-1 : Int) else 1) 3 6 5 = blade
 
 /-! ### (e) basis vectors -/
 
-/-- `e_i * e_i = g i` (a null vector gives the empty dict) -/
-theorem basis_square (g : Nat → Int) (i : Nat) :
+/-- `e_i * e_i = g i` (a null vector gives the empty dict), over any commutative ring -/
+theorem basis_square {R : Type} [CommRing R] [DecidableEq R] (g : Nat → R) (i : Nat) :
     mvMul g [(2 ^ i, 1)] [(2 ^ i, 1)] = if g i = 0 then [] else [(0, g i)] :=
   basis_square_mv g i
 
@@ -95,9 +110,11 @@ theorem basis_square_blade {R : Type} [CommMonoid R] (g : Nat → R) (i : Nat) :
     reorderSign (2 ^ i) (2 ^ i) = 1 ∧ 2 ^ i ^^^ 2 ^ i = 0 ∧ wGeometric g (2 ^ i) (2 ^ i) = g i :=
   ⟨(basis_square_sign i).1, (basis_square_sign i).2, wGeometric_basis_self g i⟩
 
-/-- `e_i * e_j = -(e_j * e_i)` for `i ≠ j`, with a single term of weight 1 -/
-theorem basis_anticommute (g : Nat → Int) {i j : Nat} (h : i ≠ j) :
-    mvMul g [(2 ^ i, 1)] [(2 ^ j, 1)] = [(2 ^ i ^^^ 2 ^ j, reorderSign (2 ^ i) (2 ^ j))]
+/-- `e_i * e_j = -(e_j * e_i)` for `i ≠ j`, with a single term of weight 1 (in the zero ring every
+    product is the empty dict, hence `Nontrivial`) -/
+theorem basis_anticommute {R : Type} [CommRing R] [DecidableEq R] [Nontrivial R] (g : Nat → R)
+    {i j : Nat} (h : i ≠ j) :
+    mvMul g [(2 ^ i, 1)] [(2 ^ j, 1)] = [(2 ^ i ^^^ 2 ^ j, reorderSignR (2 ^ i) (2 ^ j))]
     ∧ mvMul g [(2 ^ i, 1)] [(2 ^ j, 1)] = mvNeg (mvMul g [(2 ^ j, 1)] [(2 ^ i, 1)]) :=
   basis_anticommute_mv g h
 
@@ -108,9 +125,15 @@ theorem basis_anticommute_blade {i j : Nat} (h : i ≠ j) :
 theorem reorderSignExp_basis (i j : Nat) :
     reorderSignExp (2 ^ i) (2 ^ j) = if j < i then 1 else 0 := reorderSignExp_two_pow i j
 
-example : mvMul (fun i => if i = 2 then -1 else 1) [(2 ^ 2, 1)] [(2 ^ 2, 1)] = [(0, -1)] :=
+/-- the sign the products multiply by is the integer sign, in every ring -/
+theorem reorderSignR_eq_sign {R : Type} [CommRing R] (a b : Nat) :
+    (reorderSignR a b : R) = ((reorderSign a b : Int) : R) := reorderSignR_eq_cast a b
+
+example : mvMul (fun i => if i = 2 then (-1 : Int) else 1) [(2 ^ 2, 1)] [(2 ^ 2, 1)] = [(0, -1)] :=
   basis_square _ 2
 example (g : Nat → Int) : mvMul g [(2 ^ 1, 1)] [(2 ^ 4, 1)]
+    = mvNeg (mvMul g [(2 ^ 4, 1)] [(2 ^ 1, 1)]) := (basis_anticommute g (by decide)).2
+example (g : Nat → Rat) : mvMul g [(2 ^ 1, 1)] [(2 ^ 4, 1)]
     = mvNeg (mvMul g [(2 ^ 4, 1)] [(2 ^ 1, 1)]) := (basis_anticommute g (by decide)).2
 
 /-! ### (f) the other five products are grade parts of the geometric product
@@ -190,85 +213,126 @@ theorem rev_antiauto_blade (a b : Nat) :
 theorem invol_auto_blade (a b : Nat) : involSign (a ^^^ b) = involSign a * involSign b :=
   invol_auto_sign a b
 
-/-- `(A * B).rev() == B.rev() * A.rev()` for all multivectors -/
-theorem rev_antiauto (g : Nat → Int) (a b : MV) :
-    mvEq (rev (mvMul g a b)) (mvMul g (rev b) (rev a)) = true := rev_mvMul g a b
+/-- `(A * B).rev() == B.rev() * A.rev()` for all multivectors over any commutative ring -/
+theorem rev_antiauto {R : Type} [CommRing R] [DecidableEq R] (g : Nat → R) (a b : MVOf R) :
+    mvEq (rev (mvMul g a b)) (mvMul g (rev b) (rev a)) = true :=
+  (mvEq_iff_coeffwise (pruned_rev (genericProduct_pruned _ _ _)) (genericProduct_pruned _ _ _)).2
+    (coeff_rev_mul isZeroD_sound g a b)
 
 /-- `(A · B).invol() == A.invol() · B.invol()` for each of the six products -/
-theorem invol_auto (w : Nat → Nat → Int) (a b : MV) :
+theorem invol_auto {R : Type} [CommRing R] [DecidableEq R] (w : Nat → Nat → R) (a b : MVOf R) :
     mvEq (invol (genericProduct w a b)) (genericProduct w (invol a) (invol b)) = true :=
-  invol_genericProduct w a b
+  (mvEq_iff_coeffwise (pruned_invol (genericProduct_pruned _ _ _)) (genericProduct_pruned _ _ _)).2
+    (coeff_invol_genericProductZ isZeroD_sound w a b)
+
+/-- `rev` and `invol` are involutions and act blade-wise by the signs `(-1)^(k(k-1)/2)`, `(-1)^k` -/
+theorem rev_invol_spec {R : Type} [CommRing R] (a : MVOf R) :
+    rev (rev a) = a ∧ invol (invol a) = a
+    ∧ (∀ k, coeff (rev a) k = ((revSign k : Int) : R) * coeff a k)
+    ∧ (∀ k, coeff (invol a) k = ((involSign k : Int) : R) * coeff a k) :=
+  ⟨rev_rev a, invol_invol a, coeff_rev a, coeff_invol a⟩
 
 example : reorderSign 0b0110 0b1011
     = sgn (pc 0b1011 * pc 0b0110 - pc (0b1011 &&& 0b0110)) * reorderSign 0b1011 0b0110 :=
   reorderSign_swap _ _
 example : revSign 0b111 = -1 := by rw [(rev_sign _).1]; decide +kernel
+example (g : Nat → Rat) (a b : MVOf Rat) :
+    mvEq (rev (mvMul g a b)) (mvMul g (rev b) (rev a)) = true := rev_antiauto g a b
 
-/-! ### (h) multivectors: pruning, coefficient formula, bilinearity, associativity -/
+/-! ### (h) multivectors: pruning, coefficient formula, bilinearity, associativity
+
+For every commutative ring `R` with decidable equality. -/
+
+section
+variable {R : Type} [CommRing R] [DecidableEq R]
 
 /-- whatever the operands, a product never stores a zero coefficient or a duplicate key -/
-theorem product_pruned (w : Nat → Nat → Int) (a b : MV) : Pruned (genericProduct w a b) :=
+theorem product_pruned (w : Nat → Nat → R) (a b : MVOf R) : Pruned (genericProduct w a b) :=
   genericProduct_pruned w a b
 
 /-- the coefficient of blade `k` in `_generic_product` -/
-theorem product_coeff (w : Nat → Nat → Int) (a b : MV) (k : Nat) :
+theorem product_coeff (w : Nat → Nat → R) (a b : MVOf R) (k : Nat) :
     coeff (genericProduct w a b) k
       = lsum (fun s => lsum (fun o =>
-          if s.1 ^^^ o.1 = k then w s.1 o.1 * reorderSign s.1 o.1 * s.2 * o.2 else 0) b) a :=
+          if s.1 ^^^ o.1 = k then w s.1 o.1 * reorderSignR s.1 o.1 * s.2 * o.2 else 0) b) a :=
   coeff_genericProduct w a b k
 
 /-- `product_bilinear`, left argument -/
-theorem product_bilinear_left (w : Nat → Nat → Int) {a a1 a2 : MV} (x y : Int) (c : MV)
+theorem product_bilinear_left (w : Nat → Nat → R) {a a1 a2 : MVOf R} (x y : R) (c : MVOf R)
     (ha : NodupKeys a) (ha1 : NodupKeys a1) (ha2 : NodupKeys a2)
     (h : ∀ k, coeff a k = x * coeff a1 k + y * coeff a2 k) (k : Nat) :
     coeff (genericProduct w a c) k
       = x * coeff (genericProduct w a1 c) k + y * coeff (genericProduct w a2 c) k :=
-  coeff_genericProduct_lin_left w x y c ha ha1 ha2 h k
+  coeff_genericProductZ_lin_left isZeroD_sound w x y c ha ha1 ha2 h k
 
 /-- `product_bilinear`, right argument -/
-theorem product_bilinear_right (w : Nat → Nat → Int) (a : MV) {c c1 c2 : MV} (x y : Int)
+theorem product_bilinear_right (w : Nat → Nat → R) (a : MVOf R) {c c1 c2 : MVOf R} (x y : R)
     (hc : NodupKeys c) (hc1 : NodupKeys c1) (hc2 : NodupKeys c2)
     (h : ∀ k, coeff c k = x * coeff c1 k + y * coeff c2 k) (k : Nat) :
     coeff (genericProduct w a c) k
       = x * coeff (genericProduct w a c1) k + y * coeff (genericProduct w a c2) k :=
-  coeff_genericProduct_lin_right w a x y hc hc1 hc2 h k
+  coeff_genericProductZ_lin_right isZeroD_sound w a x y hc hc1 hc2 h k
+
+/-- `A + B` is pruned and denotes the pointwise sum -/
+theorem add_spec {a b : MVOf R} (ha : NodupKeys a) (hb : NodupKeys b) :
+    Pruned (mvAdd a b) ∧ ∀ k, coeff (mvAdd a b) k = coeff a k + coeff b k :=
+  ⟨mvAdd_pruned ha hb, coeff_mvAddZ isZeroD_sound ha hb⟩
+
+/-- `A - B` and `-A` denote the pointwise difference / negation -/
+theorem sub_neg_spec {a b : MVOf R} (ha : NodupKeys a) (hb : NodupKeys b) :
+    (∀ k, coeff (mvSub a b) k = coeff a k - coeff b k) ∧ (∀ k, coeff (mvNeg a) k = - coeff a k) :=
+  ⟨coeff_mvSubZ isZeroD_sound ha hb, coeff_mvNeg a⟩
 
 /-- `(A + B) * C == A * C + B * C` and `A * (B + C) == A * B + A * C` as Python evaluates them,
     for each of the six products -/
-theorem product_distrib (w : Nat → Nat → Int) {a b c : MV}
+theorem product_distrib (w : Nat → Nat → R) {a b c : MVOf R}
     (ha : NodupKeys a) (hb : NodupKeys b) (hc : NodupKeys c) :
     mvEq (genericProduct w (mvAdd a b) c) (mvAdd (genericProduct w a c) (genericProduct w b c))
       = true
     ∧ mvEq (genericProduct w a (mvAdd b c)) (mvAdd (genericProduct w a b) (genericProduct w a c))
-      = true :=
-  ⟨genericProduct_add_left w c ha hb, genericProduct_add_right w a hb hc⟩
+      = true := by
+  constructor
+  · obtain ⟨hp, hs⟩ := add_spec ha hb
+    obtain ⟨hp', hs'⟩ := add_spec (product_pruned w a c).1 (product_pruned w b c).1
+    rw [mvEq_iff_coeffwise (product_pruned _ _ _) hp']
+    intro k
+    rw [hs' k, product_bilinear_left w 1 1 c hp.1 ha hb (by intro k; rw [hs k]; ring)]
+    ring
+  · obtain ⟨hp, hs⟩ := add_spec hb hc
+    obtain ⟨hp', hs'⟩ := add_spec (product_pruned w a b).1 (product_pruned w a c).1
+    rw [mvEq_iff_coeffwise (product_pruned _ _ _) hp']
+    intro k
+    rw [hs' k, product_bilinear_right w a 1 1 hp.1 hb hc (by intro k; rw [hs k]; ring)]
+    ring
 
 /-- `product_assoc`: `(A * B) * C == A * (B * C)` for the geometric product as coded, for all
-    multivectors, all diagonal integer metrics, all dimensions -/
-theorem product_assoc (g : Nat → Int) (a b c : MV) :
-    mvEq (mvMul g (mvMul g a b) c) (mvMul g a (mvMul g b c)) = true := mvMul_assoc g a b c
+    multivectors, all diagonal metrics over any commutative ring, all dimensions -/
+theorem product_assoc (g : Nat → R) (a b c : MVOf R) :
+    mvEq (mvMul g (mvMul g a b) c) (mvMul g a (mvMul g b c)) = true :=
+  (mvEq_iff_coeffwise (product_pruned _ _ _) (product_pruned _ _ _)).2
+    (coeff_genericProductZ_assoc isZeroD_sound (cocycle_wGeometric g) a b c)
 
 /-- the outer product is associative, too -/
-theorem outer_assoc (g : Nat → Int) (a b c : MV) :
+theorem outer_assoc (g : Nat → R) (a b c : MVOf R) :
     mvEq (mvOuter g (mvOuter g a b) c) (mvOuter g a (mvOuter g b c)) = true :=
-  mvOuter_assoc g a b c
-
-/-- `A + B` is pruned and denotes the pointwise sum -/
-theorem add_spec {a b : MV} (ha : NodupKeys a) (hb : NodupKeys b) :
-    Pruned (mvAdd a b) ∧ ∀ k, coeff (mvAdd a b) k = coeff a k + coeff b k := mvAdd_spec ha hb
+  (mvEq_iff_coeffwise (product_pruned _ _ _) (product_pruned _ _ _)).2
+    (coeff_genericProductZ_assoc isZeroD_sound (cocycle_wOuter g) a b c)
 
 /-- `blade_inv`: when `inv` succeeds on `{bits: c}` its result `numer / denom` is a two-sided
     inverse, `denom = g-norm² ≠ 0` -/
-theorem blade_inv (g : Nat → Int) (dims bits : Nat) (c : Int) (numer : MV) (denom : Int)
+theorem blade_inv (g : Nat → R) (dims bits : Nat) (c : R) (numer : MVOf R) (denom : R)
     (h : inv g dims [(bits, c)] = .ok numer denom) :
     denom ≠ 0 ∧ denom = sharedMetricCoeff g bits * c * c ∧
     mvMul g [(bits, c)] numer = [(0, denom)] ∧ mvMul g numer [(bits, c)] = [(0, denom)] :=
   PV.GA.blade_inv g dims bits c numer denom h
 
-/-- `norm_sq` of a blade -/
-theorem norm_sq (g : Nat → Int) (bits : Nat) (c : Int) :
-    normSquared g [(bits, c)] = some (sharedMetricCoeff g bits * c * c) :=
-  normSquared_blade g bits c
+/-- `norm_sq` of a blade: the product of the metric entries of its factors times `c²` -/
+theorem norm_sq (g : Nat → R) (bits : Nat) (c : R) :
+    normSquared g [(bits, c)] = some (sharedMetricCoeff g bits * c * c)
+    ∧ sharedMetricCoeff g bits = prodBits g bits :=
+  ⟨normSquared_blade g bits c, sharedMetricCoeff_eq_prodBits g bits⟩
+
+end
 
 example (g : Nat → Int) :
     mvEq (mvMul g (mvMul g [(1, 2), (6, -3)] [(3, 5), (0, 7)]) [(5, 1), (2, 4)])
@@ -276,39 +340,431 @@ example (g : Nat → Int) :
   product_assoc g _ _ _
 example (g : Nat → Int) : Pruned (mvMul g [(1, 2), (1, -2), (0, 0)] [(3, 5), (0, 0)]) :=
   product_pruned _ _ _
+/-- the instance the driver runs for `Fraction` coefficients -/
+example (g : Nat → Rat) (a b c : MVOf Rat) :
+    mvEq (mvMul g (mvMul g a b) c) (mvMul g a (mvMul g b c)) = true := product_assoc g a b c
+section
+open scoped Fin.CommRing
+/-- the instance the driver runs for the ring `Z/6` (zero divisors; `Fin 6` with Mathlib's ring
+    structure on the core operations) -/
+example (g : Nat → Fin 6) (a b c : MVOf (Fin 6)) :
+    mvEq (mvMul g (mvMul g a b) c) (mvMul g a (mvMul g b c)) = true := product_assoc g a b c
+end
+/-- symbolic (polynomial) coefficients, for any decision procedure of polynomial equality -/
+example [DecidableEq (Polynomial ℚ)] (g : Nat → Polynomial ℚ) (a b c : MVOf (Polynomial ℚ)) :
+    mvEq (mvMul g (mvMul g a b) c) (mvMul g a (mvMul g b c)) = true := product_assoc g a b c
 
-/-! ### equality and truth value -/
+/-! ### which zero test is needed
+
+`z : R → Bool` is the test the code prunes with.  What a result DENOTES needs a sound test only;
+how it is STORED (and so `==`, `bool`, `hash`) needs a complete one, too. -/
+
+section
+variable {R : Type} [CommRing R] {z : R → Bool}
+
+/-- coefficient formula of `_generic_product` for any sound zero test -/
+theorem product_coeff_sound (hz : ZSound z) (w : Nat → Nat → R) (a b : MVOf R) (k : Nat) :
+    coeff (genericProductZ z w a b) k
+      = lsum (fun s => lsum (fun o =>
+          if s.1 ^^^ o.1 = k then w s.1 o.1 * reorderSignR s.1 o.1 * s.2 * o.2 else 0) b) a :=
+  coeff_genericProductZ hz w a b k
+
+/-- associativity of the geometric (and outer) product, as an identity between the denoted
+    coefficient functions, for any sound zero test and ANY operands -/
+theorem product_assoc_sound (hz : ZSound z) (g : Nat → R) (a b c : MVOf R) (k : Nat) :
+    coeff (genericProductZ z (wGeometric g) (genericProductZ z (wGeometric g) a b) c) k
+      = coeff (genericProductZ z (wGeometric g) a (genericProductZ z (wGeometric g) b c)) k
+    ∧ coeff (genericProductZ z (wOuter g) (genericProductZ z (wOuter g) a b) c) k
+      = coeff (genericProductZ z (wOuter g) a (genericProductZ z (wOuter g) b c)) k :=
+  ⟨coeff_genericProductZ_assoc hz (cocycle_wGeometric g) a b c k,
+    coeff_genericProductZ_assoc hz (cocycle_wOuter g) a b c k⟩
+
+/-- bilinearity (both arguments) and additivity for any sound zero test -/
+theorem product_linear_sound (hz : ZSound z) (w : Nat → Nat → R) {a a1 a2 : MVOf R} (x y : R)
+    (c : MVOf R) (ha : NodupKeys a) (ha1 : NodupKeys a1) (ha2 : NodupKeys a2)
+    (h : ∀ k, coeff a k = x * coeff a1 k + y * coeff a2 k) (k : Nat) :
+    coeff (genericProductZ z w a c) k
+      = x * coeff (genericProductZ z w a1 c) k + y * coeff (genericProductZ z w a2 c) k
+    ∧ coeff (genericProductZ z w c a) k
+      = x * coeff (genericProductZ z w c a1) k + y * coeff (genericProductZ z w c a2) k
+    ∧ coeff (mvAddZ z a1 a2) k = coeff a1 k + coeff a2 k :=
+  ⟨coeff_genericProductZ_lin_left hz w x y c ha ha1 ha2 h k,
+    coeff_genericProductZ_lin_right hz w c x y ha ha1 ha2 h k, coeff_mvAddZ hz ha1 ha2 k⟩
+
+/-- `rev` is an anti-automorphism, `invol` an automorphism — sound zero test -/
+theorem rev_invol_sound (hz : ZSound z) (g : Nat → R) (w : Nat → Nat → R) (a b : MVOf R) (k : Nat) :
+    coeff (rev (genericProductZ z (wGeometric g) a b)) k
+      = coeff (genericProductZ z (wGeometric g) (rev b) (rev a)) k
+    ∧ coeff (invol (genericProductZ z w a b)) k
+      = coeff (genericProductZ z w (invol a) (invol b)) k :=
+  ⟨coeff_rev_mul hz g a b k, coeff_invol_genericProductZ hz w a b k⟩
+
+/-- results have distinct keys whatever the zero test; with a COMPLETE zero test no zero is ever
+    stored by a product or a sum -/
+theorem product_pruned_complete (hc : ZComplete z) (w : Nat → Nat → R) (a b : MVOf R)
+    {c d : MVOf R} (hcd : NodupKeys c) (hd : NodupKeys d) :
+    NodupKeys (genericProductZ (fun _ => false) w a b)
+    ∧ Pruned (genericProductZ z w a b) ∧ Pruned (mvAddZ z c d) :=
+  ⟨genericProductZ_nodup _ w a b, genericProductZ_pruned hc w a b, mvAddZ_pruned hc hcd hd⟩
+
+/-- `x == 0` as the zero test is sound and complete -/
+theorem decidable_zero_test [DecidableEq R] :
+    ZSound (isZeroD : R → Bool) ∧ ZComplete (isZeroD : R → Bool) :=
+  ⟨isZeroD_sound, isZeroD_complete⟩
+
+end
+
+/-- with an INCOMPLETE zero test (here: never recognises a zero — what `is_zero` is for a symbolic
+    expression `x - x`) the difference `e0 - e0` stores a zero: it still denotes the zero function
+    but `== 0` and `bool` see the stored dict -/
+theorem eq_needs_complete_zero_test_cex :
+    let z : Int → Bool := fun _ => false
+    ZSound z ∧ (∀ k, coeff (mvSubZ z [(1, 1)] [(1, 1)]) k = 0)
+      ∧ mvEq (mvSubZ z [(1, 1)] [(1, 1)]) [] = false ∧ mvBool (mvSubZ z [(1, 1)] [(1, 1)]) = true := by
+  refine ⟨fun x h => by simp at h, fun k => ?_, by decide, by decide⟩
+  have : mvSubZ (fun _ => false) [(1, (1 : Int))] [(1, 1)] = [(1, 0)] := by decide
+  rw [this, coeff_cons]; simp
+
+/-- with an UNSOUND zero test (calls `2` zero) even the denoted coefficients are wrong -/
+theorem coeff_needs_sound_zero_test_cex :
+    let z : Int → Bool := fun x => x = 0 ∨ x = 2
+    coeff (mvAddZ z [(1, 1)] [(1, 1)]) 1 ≠ coeff [(1, (1 : Int))] 1 + coeff [(1, 1)] 1 := by
+  decide
+
+/-! ### equality, truth value and hash -/
+
+section
+variable {R : Type} [CommRing R] [DecidableEq R]
 
 /-- `eq_iff_coeffwise`: on pruned dicts Python's `==` is equality of coefficient functions -/
-theorem eq_iff_coeffwise {a b : MV} (ha : Pruned a) (hb : Pruned b) :
+theorem eq_iff_coeffwise {a b : MVOf R} (ha : Pruned a) (hb : Pruned b) :
     mvEq a b = true ↔ ∀ k, coeff a k = coeff b k := mvEq_iff_coeffwise ha hb
 
+omit [DecidableEq R] in
 /-- `bool(A)` on pruned dicts is "some coefficient is non-zero" -/
-theorem bool_iff_nonzero {a : MV} (ha : Pruned a) : mvBool a = true ↔ ∃ k, coeff a k ≠ 0 :=
+theorem bool_iff_nonzero {a : MVOf R} (ha : Pruned a) : mvBool a = true ↔ ∃ k, coeff a k ≠ 0 :=
   mvBool_iff_of_pruned ha
+
+omit [CommRing R] in
+/-- `hash_respects_eq`: multivectors that compare equal hash equal — for any hash functions of
+    bitmaps and coefficients, any insertion orders (the XOR fold of `__hash__` is order-free) -/
+theorem hash_respects_eq (hspace : Nat) (hb : Nat → Nat) (hc : R → Nat) {a b : MVOf R}
+    (ha : NodupKeys a) (h : mvEq a b = true) :
+    mvHash hspace hb hc a = mvHash hspace hb hc b := mvHash_eq_of_mvEq hspace hb hc ha h
 
 /-! #### the scalar zero (repaired in /repo by the `fix:` commit "MultiVector(0) stores no
     coefficient"; before it `MultiVector(0)` stored `{0: 0}`, `(e0-e0)==0` was `False` and
     `bool(MultiVector(0))` was `True`) -/
 
 /-- `MultiVector(x)` is pruned for every scalar `x`; the scalar zero is the empty dict and falsy -/
-theorem scalar_pruned (x : Int) : Pruned (ofScalar x) := ofScalar_pruned x
+theorem scalar_pruned (x : R) : Pruned (ofScalar x) := ofScalar_pruned x
 
-theorem scalar_zero_falsy : mvBool (ofScalar 0) = false ∧ mvEq [] (ofScalar 0) = true := by
-  constructor <;> rfl
+theorem scalar_zero_falsy :
+    mvBool (ofScalar (0 : R)) = false ∧ mvEq ([] : MVOf R) (ofScalar 0) = true := by
+  have h0 : (ofScalar (0 : R)) = [] := by simp [ofScalar, ofScalarZ, isZeroD]
+  rw [h0]; constructor <;> rfl
 
 /-- `x == 0` on every pruned dict (all results of `+`, `-` and the products) is coefficient-wise -/
-theorem eq_scalar_zero_iff {a : MV} (ha : Pruned a) :
+theorem eq_scalar_zero_iff {a : MVOf R} (ha : Pruned a) :
     mvEqScalar a 0 = true ↔ ∀ k, coeff a k = 0 :=
   mvEqScalar_zero_iff_of_pruned ha
 
-example : mvEqScalar (mvSub [(1, 1)] [(1, 1)]) 0 = true := by decide
-example : mvSub [(1, 1)] [(1, 1)] = [] := by decide
-
 /-- `MultiVector(0) * A` is the empty dict -/
-theorem product_scalar_zero (w : Nat → Nat → Int) (a : MV) :
+theorem product_scalar_zero (w : Nat → Nat → R) (a : MVOf R) :
     genericProduct w (ofScalar 0) a = [] ∧ genericProduct w a (ofScalar 0) = [] :=
   genericProduct_ofScalar_zero w a
+
+end
+
+example : mvEqScalar (mvSub [(1, (1 : Int))] [(1, 1)]) 0 = true := by decide
+example : mvSub [(1, (1 : Int))] [(1, 1)] = [] := by decide
+example : mvHash 7 id Int.natAbs [(1, (2 : Int)), (2, 3)] = mvHash 7 id Int.natAbs [(2, 3), (1, 2)] :=
+  hash_respects_eq 7 id Int.natAbs (by simp [NodupKeys, keys]) (by decide)
+
+/-! ### `norm_squared`, `scalar_product`, `as_scalar` of general multivectors -/
+
+section
+variable {R : Type} [CommRing R] [DecidableEq R]
+
+/-- `norm_sq_general`: `norm_squared` never raises; it is `Σ_k g(k) · a_k²` where `g(k)` is the
+    product of the metric entries of the factors of blade `k` -/
+theorem norm_sq_general (g : Nat → R) {a : MVOf R} (ha : NodupKeys a) :
+    normSquared g a = some (lsum (fun p => prodBits g p.1 * p.2 * p.2) a) := normSquared_eq g ha
+
+/-- `scalar_product(A, B)` never raises and is the scalar part of the geometric product `A * B`;
+    in particular `norm_squared(A)` is the scalar part of `A.rev() * A` -/
+theorem scalar_product_is_scalar_part (g : Nat → R) (a b : MVOf R) :
+    scalarProduct g a b = some (coeff (mvMul g a b) 0)
+    ∧ normSquared g a = some (coeff (mvMul g (rev a) a) 0) := by
+  have h : ∀ a b : MVOf R, scalarProduct g a b = some (coeff (mvMul g a b) 0) := by
+    intro a b
+    unfold scalarProduct
+    rw [scalarProductZ_eq isZeroD_sound isZeroD_complete,
+      coeff_scalar_eq_geometric isZeroD_sound]
+  exact ⟨h a b, h (rev a) a⟩
+
+omit [DecidableEq R] in
+/-- `as_scalar`: raises exactly when a non-scalar key is stored; otherwise returns the scalar
+    coefficient -/
+theorem as_scalar_spec {a : MVOf R} (ha : NodupKeys a) :
+    (asScalar a = none ↔ ∃ k ∈ keys a, k ≠ 0)
+    ∧ ((∀ k ∈ keys a, k = 0) → asScalar a = some (coeff a 0)) :=
+  ⟨asScalar_eq_none_iff a, asScalar_eq_coeff_zero ha⟩
+
+end
+
+example : normSquared (fun i => if i = 0 then (-1 : Int) else 2) [(1, 3), (2, 1), (3, 2)]
+    = some (-1 * 9 + 2 * 1 + -2 * 4) := by decide +kernel
+
+/-! ### `inv`, `__truediv__` -/
+
+section
+variable {R : Type} [CommRing R] [DecidableEq R]
+
+/-- `inv_mul_self`: on every well-formed multivector (distinct keys, all below `2^dims`) on which
+    `MultiVector.inv` RETURNS (`numer / denom`): `denom = norm_squared ≠ 0` and
+    `numer * A == denom == A * numer`.  `inv` returns exactly for one-item dicts with non-zero
+    norm² and for dicts of ≥ 2 items of a single grade 0, 1 or `dims` with non-zero norm² — of
+    which only grade 1 (vectors) exists among well-formed dicts. -/
+theorem inv_mul_self (g : Nat → R) (dims : Nat) {a : MVOf R} (numer : MVOf R) (denom : R)
+    (ha : NodupKeys a) (hr : ∀ k ∈ keys a, k < 2 ^ dims)
+    (h : inv g dims a = .ok numer denom) :
+    denom ≠ 0 ∧ normSquared g a = some denom
+    ∧ mvEq (mvMul g numer a) (ofScalar denom) = true
+    ∧ mvEq (mvMul g a numer) (ofScalar denom) = true := by
+  obtain ⟨h1, h2, _, h4, h5⟩ := PV.GA.inv_mul_self g dims numer denom ha hr h
+  refine ⟨h1, h2, ?_, ?_⟩
+  · rw [mvEq_iff_coeffwise (genericProduct_pruned _ _ _) (ofScalar_pruned _)]
+    intro k; rw [h4 k, coeff_ofScalar]
+  · rw [mvEq_iff_coeffwise (genericProduct_pruned _ _ _) (ofScalar_pruned _)]
+    intro k; rw [h5 k, coeff_ofScalar]
+
+end
+
+/-- `inv_domain`: the exact precondition of `MultiVector.inv` on well-formed dicts — it returns iff
+    norm² is non-zero and the dict has exactly one item (a basis blade times a coefficient) or
+    consists of ≥ 2 basis VECTORS; everything else raises -/
+theorem inv_domain {R : Type} [CommRing R] [DecidableEq R] (g : Nat → R) (dims : Nat) {a : MVOf R}
+    (ha : NodupKeys a) (hr : ∀ k ∈ keys a, k < 2 ^ dims) :
+    (∃ numer denom, inv g dims a = .ok numer denom) ↔
+      (∃ q, normSquared g a = some q ∧ q ≠ 0)
+      ∧ (a.length = 1 ∨ (2 ≤ a.length ∧ ∀ k ∈ keys a, bitCount k = 1)) :=
+  inv_ok_iff g dims ha hr
+
+/-- `inv` REFUSES non-null blades that are neither basis blades nor vectors: `(e0 + e1) ^ e2` is a
+    2-blade of the Euclidean 3-space with norm² 2 and inverse `rev(B) / 2`, yet `inv` answers
+    `NotImplementedError("division by non-blades")` (confirmed on the real code) -/
+theorem inv_refuses_blade_cex :
+    let g : Nat → Int := fun _ => 1
+    let b : MV := [(5, 1), (6, 1)]
+    mvOuter g [(1, 1), (2, 1)] [(4, 1)] = b ∧ inv g 3 b = .notImplemented
+    ∧ normSquared g b = some 2 ∧ mvMul g (rev b) b = [(0, 2)] ∧ mvMul g b (rev b) = [(0, 2)] := by
+  decide +kernel
+
+/-- the hypothesis "keys below `2^dims`" of `inv_mul_self` is needed in the MODEL: `e01 + e02`
+    passed off as a grade-`dims` element of a 2-dimensional space is returned unreversed, and
+    `numer * A = -denom`.  (The real code cannot get there: norm² indexes the metric matrix with
+    the out-of-range basis index and raises `IndexError`.) -/
+theorem inv_out_of_range_cex :
+    inv (fun _ => (1 : Int)) 2 [(3, 1), (5, 1)] = .ok [(3, 1), (5, 1)] 2
+    ∧ mvMul (fun _ => (1 : Int)) [(3, 1), (5, 1)] [(3, 1), (5, 1)] = [(0, -2)] := by
+  decide +kernel
+
+section
+variable {R : Type} [Field R] [DecidableEq R]
+
+/-- `inv_field`: with coefficients in a field (Python `Fraction`s) the multivector `inv` returns —
+    `{bits: coeff / nsqr}` — satisfies `A.inv() * A == 1 == A * A.inv()` -/
+theorem inv_field (g : Nat → R) (dims : Nat) {a ai : MVOf R}
+    (ha : NodupKeys a) (hr : ∀ k ∈ keys a, k < 2 ^ dims) (h : mvInvDiv g dims a = .ok ai) :
+    mvEq (mvMul g ai a) mvOne = true ∧ mvEq (mvMul g a ai) mvOne = true :=
+  mvInvDiv_mul_self g dims ha hr h
+
+/-- `truediv_mul_cancel`: `(A / B) * B` denotes `A` whenever `A / B` (`A * B.inv()`) returns -/
+theorem truediv_mul_cancel (g : Nat → R) (dims : Nat) {a b q : MVOf R}
+    (ha : NodupKeys a) (hb : NodupKeys b) (hr : ∀ k ∈ keys b, k < 2 ^ dims)
+    (h : mvTrueDiv g dims a b = .ok q) (k : Nat) :
+    coeff (mvMul g q b) k = coeff a k := mvTrueDiv_mul_cancel g dims ha hb hr h k
+
+end
+
+example : mvInvDiv (fun _ => (1 : Rat)) 2 [(1, 3), (2, 4)] = .ok [(1, 3 / 25), (2, 4 / 25)] := by
+  decide +kernel
+example : mvInvDiv (fun i => if i = 0 then (0 : Rat) else 1) 2 [(1, 3)]
+    = .error .zeroDivision := by decide +kernel
+example : mvInvDiv (fun _ => (1 : Rat)) 3 [(1, 1), (6, 1)] = .error .notImplemented := by
+  decide +kernel
+
+/-! ### `dual`, the pseudoscalar `I` -/
+
+section
+variable {R : Type} [CommRing R] [DecidableEq R]
+
+/-- `dual_coeff`: `A.dual()` (coded `A | I.rev()`) has the coefficient
+    `g(k') · σ(k', I) · rev(I) · A[k']` at blade `k`, `k' = k ⊕ I` the complementary blade -/
+theorem dual_coeff (g : Nat → R) (dims : Nat) {a : MVOf R} (ha : NodupKeys a) (k : Nat) :
+    coeff (dual g dims a) k
+      = wInner g (k ^^^ (2 ^ dims - 1)) (2 ^ dims - 1)
+        * reorderSignR (k ^^^ (2 ^ dims - 1)) (2 ^ dims - 1)
+        * coeff a (k ^^^ (2 ^ dims - 1)) * (((revSign (2 ^ dims - 1) : Int) : R) * 1) :=
+  coeff_dualZ isZeroD_sound g dims ha k
+
+/-- `dual_linear` -/
+theorem dual_linear (g : Nat → R) (dims : Nat) {a a1 a2 : MVOf R} (x y : R)
+    (ha : NodupKeys a) (ha1 : NodupKeys a1) (ha2 : NodupKeys a2)
+    (h : ∀ k, coeff a k = x * coeff a1 k + y * coeff a2 k) (k : Nat) :
+    coeff (dual g dims a) k = x * coeff (dual g dims a1) k + y * coeff (dual g dims a2) k :=
+  coeff_genericProductZ_lin_left isZeroD_sound _ x y _ ha ha1 ha2 h k
+
+/-- `dual_dual`: `A.dual().dual() == (-1)^(n(n-1)/2) · det(g) · A` for every well-formed
+    multivector of an `n`-dimensional space; the sign and the determinant are spelled out by
+    `pseudoscalar_sign_metric` -/
+theorem dual_dual (g : Nat → R) (dims : Nat) {a : MVOf R}
+    (ha : NodupKeys a) (hr : ∀ k ∈ keys a, k < 2 ^ dims) (k : Nat) :
+    coeff (dual g dims (dual g dims a)) k
+      = ((revSign (2 ^ dims - 1) : Int) : R) * prodBits g (2 ^ dims - 1) * coeff a k :=
+  coeff_dualZ_dualZ isZeroD_sound g dims ha hr k
+
+omit [DecidableEq R] in
+/-- the two factors of `dual_dual` and of `I * I`: `rev` sign of the pseudoscalar
+    `(-1)^(n(n-1)/2)`, metric weight `∏_{i<n} g i` -/
+theorem pseudoscalar_sign_metric (g : Nat → R) (n : Nat) :
+    revSign (2 ^ n - 1) = (if n * (n - 1) / 2 % 2 = 0 then 1 else -1)
+    ∧ prodBits g (2 ^ n - 1) = ((List.range n).map g).prod
+    ∧ bitCount (2 ^ n - 1) = n :=
+  ⟨revSign_full n, prodBits_full g n, by rw [PV.GA.bitCount_eq_popcount, pc_full]⟩
+
+/-- `I * I = (-1)^(n(n-1)/2) · det(g)` as computed by `__mul__` -/
+theorem pseudoscalar_sq (g : Nat → R) (dims : Nat) :
+    mvMul g (pseudoscalar dims) (pseudoscalar dims)
+      = ofScalar (((revSign (2 ^ dims - 1) : Int) : R) * prodBits g (2 ^ dims - 1)) :=
+  PV.GA.pseudoscalar_sq g dims
+
+/-- on well-formed multivectors the inner product with `I.rev()` that `dual` is coded with is the
+    geometric product `A * I.rev()` (`= A * I⁻¹ · det g`) -/
+theorem dual_eq_mul_rev_I (g : Nat → R) (dims : Nat) {a : MVOf R}
+    (hr : ∀ k ∈ keys a, k < 2 ^ dims) :
+    mvEq (dual g dims a) (mvMul g a (rev (pseudoscalar dims))) = true :=
+  (mvEq_iff_coeffwise (genericProduct_pruned _ _ _) (genericProduct_pruned _ _ _)).2
+    (coeff_dualZ_eq_mul isZeroD_sound g dims hr)
+
+end
+
+example : dual (fun _ => (1 : Int)) 3 [(1, 2), (6, 5)] = [(6, -2), (1, 5)] := by decide +kernel
+example : dual (fun _ => (1 : Int)) 3 (dual (fun _ => (1 : Int)) 3 [(1, 2), (6, 5)])
+    = [(1, -2), (6, -5)] := by decide +kernel
+
+/-! ### grade projections, `gen_blades`, `xproject` -/
+
+section
+variable {R : Type} [CommRing R] [DecidableEq R]
+
+omit [DecidableEq R] in
+/-- `project_coeff`: `A.project(r)` keeps exactly the coefficients of the grade-`r` blades
+    (and so is linear: `project_linear`) -/
+theorem project_coeff (a : MVOf R) (r k : Nat) :
+    coeff (project a r) k = if bitCount k = r then coeff a k else 0 := coeff_project a r k
+
+omit [DecidableEq R] in
+theorem project_linear {a a1 a2 : MVOf R} (x y : R)
+    (h : ∀ k, coeff a k = x * coeff a1 k + y * coeff a2 k) (r k : Nat) :
+    coeff (project a r) k = x * coeff (project a1 r) k + y * coeff (project a2 r) k := by
+  simp only [coeff_project]; split
+  · exact h k
+  · ring
+
+omit [CommRing R] [DecidableEq R] in
+/-- `project_idempotent`: projections are idempotent and mutually orthogonal (as dicts) -/
+theorem project_idempotent (a : MVOf R) (r s : Nat) :
+    project (project a r) r = project a r ∧ (r ≠ s → project (project a r) s = []) := by
+  constructor
+  · rw [project_project]; simp
+  · intro h; rw [project_project]; simp [h]
+
+/-- `project_sum`: the grade projections of a well-formed multivector of a `dims`-dimensional
+    space add up to it: `sum(A.project(r) for r in range(dims+1)) == A` -/
+theorem project_sum {a : MVOf R} {dims : Nat} (ha : Pruned a) (hr : ∀ k ∈ keys a, k < 2 ^ dims) :
+    (∀ k, lsum (fun r => coeff (project a r) k) (List.range (dims + 1)) = coeff a k)
+    ∧ mvEq (mvSum ((List.range (dims + 1)).map (project a))) a = true := by
+  refine ⟨lsum_coeff_project hr, ?_⟩
+  have hl : ∀ m ∈ (List.range (dims + 1)).map (project a), NodupKeys m := by
+    intro m hm
+    obtain ⟨r, _, rfl⟩ := List.mem_map.1 hm
+    exact nodupKeys_filter _ ha.1
+  rw [mvEq_iff_coeffwise (mvSum_pruned _ hl) ha]
+  intro k
+  rw [coeff_mvSum _ hl, lsum_map]
+  exact lsum_coeff_project hr k
+
+omit [DecidableEq R] in
+/-- `even`/`odd` split the multivector -/
+theorem even_odd_sum (a : MVOf R) (k : Nat) : coeff (even a) k + coeff (odd a) k = coeff a k := by
+  rw [coeff_even, coeff_odd]; split <;> simp_all
+
+omit [DecidableEq R] in
+/-- `gen_blades_sum`: `gen_blades()` yields one single-term multivector per stored item, they add
+    up to the multivector, and `gen_blades(grade)` is `gen_blades()` of the projection -/
+theorem gen_blades_sum {a : MVOf R} (ha : NodupKeys a) (r : Nat) :
+    (∀ m ∈ genBlades a, m.length = 1)
+    ∧ (∀ k, lsum (fun m => coeff m k) (genBlades a) = coeff a k)
+    ∧ genBladesGrade a r = genBlades (project a r) := by
+  refine ⟨?_, lsum_coeff_genBlades ha, genBladesGrade_eq a r⟩
+  intro m hm
+  obtain ⟨p, _, rfl⟩ := List.mem_map.1 hm
+  rfl
+
+omit [DecidableEq R] in
+/-- `xproject`: grade 0 returns the scalar coefficient, grade 1 the list of the `dims` vector
+    coefficients, any other grade the projection; it never raises on a well-formed multivector -/
+theorem xproject_spec (dims : Nat) {a : MVOf R} (ha : NodupKeys a)
+    (hr : ∀ k ∈ keys a, k < 2 ^ dims) :
+    xproject dims a 0 = .scalar (coeff a 0)
+    ∧ (∃ v, xproject dims a 1 = .vector v ∧ v.length = dims
+        ∧ ∀ i, i < dims → v[i]? = some (coeff a (2 ^ i)))
+    ∧ ∀ r, 2 ≤ r → xproject dims a r = .mv (project a r) := by
+  refine ⟨xproject_zero dims ha, xproject_one dims ha hr, fun r h => ?_⟩
+  unfold xproject
+  rw [if_neg (by omega), if_neg (by omega)]
+
+end
+
+example : project [(1, (2 : Int)), (3, 4), (4, 1)] 1 = [(1, 2), (4, 1)] := by decide +kernel
+example : xproject 3 [(0, (7 : Int)), (2, 5), (3, 4)] 1 = .vector [0, 5, 0] := by decide +kernel
+
+/-! ### `__pow__` -/
+
+section
+variable {R : Type} [CommRing R] [DecidableEq R]
+
+/-- `pow_eq_npow`: `A ** n` (`integer_power` with `MultiVector.__mul__`, `one = MultiVector({0: 1})`)
+    returns for every `n ≥ 0` and `==` the `n`-fold product `((1 * A) * A) * … * A`; a negative
+    exponent raises.  Rests on `clifford_monoid`. -/
+theorem pow_eq_npow (g : Nat → R) (a : MVOf R) (n : Nat) :
+    (∃ p, mvPow g a n = some p ∧ mvEq p (mvNPow g a n) = true
+        ∧ ∀ k, coeff p k = coeff (mvNPow g a n) k)
+    ∧ mvPow g a (-(n : Int) - 1) = none := by
+  constructor
+  · refine ⟨_, ?_, mvPow_eq_npow g a n, coeff_mvPow g a n⟩
+    unfold mvPow mvPowWith
+    rw [if_neg (by omega)]; rfl
+  · unfold mvPow mvPowWith
+    rw [if_pos (by omega)]
+
+/-- `clifford_monoid`: modulo "denote the same formal sum" the dicts of the model form a monoid
+    under `__mul__` as coded with unit `MultiVector({0: 1})`, and `A ↦ [A]` turns `**` into the
+    monoid power -/
+theorem clifford_monoid (g : Nat → R) (a b : MVOf R) (n : Nat) :
+    CliffQ.mk g (mvMul g a b) = CliffQ.mk g a * CliffQ.mk g b
+    ∧ CliffQ.mk g (mvOne : MVOf R) = 1
+    ∧ CliffQ.mk g (PV.Algo.integerPower (mvMul g) mvOne a n) = CliffQ.mk g a ^ n :=
+  ⟨rfl, rfl, PV.Algo.integerPower_hom (CliffQ.mk g) (mvMul g) mvOne (CliffQ.mk_mul g)
+    (CliffQ.mk_one g) a n⟩
+
+end
+
+example : mvPow (fun _ => (1 : Int)) [(0, 1), (1, 2)] 3 = some [(0, 13), (1, 14)] := by
+  decide +kernel
+example : mvNPow (fun _ => (1 : Int)) [(0, 1), (1, 2)] 3 = [(0, 13), (1, 14)] := by decide +kernel
 
 /-! ### `permutation_sign`, `bits_and_sign` -/
 
